@@ -106,8 +106,32 @@ def gen_case(rng, big=False):
     stokes = None
     if wfk in ('matrix', 'scalar-stokes'):
         stokes = [1.0, _dy(rng, -1 / 2, 1 / 2, 3), _dy(rng, -1 / 2, 1 / 2, 3), _dy(rng, -1 / 2, 1 / 2, 3)]
-    return {'pupil': pupil, 'lams': lams, 'f': f, 'focal': focal, 'wf': wfk, 'stokes': stokes,
+    case = {'pupil': pupil, 'lams': lams, 'f': f, 'focal': focal, 'wf': wfk, 'stokes': stokes,
             'fseed': int(rng.integers(0, 2 ** 31))}
+    return add_aliasing(rng, case)
+
+
+def add_aliasing(rng, case):
+    """Input aliasing: the same ndarray object for both axes of a separated / polar grid, for both coordinate
+    columns of an unstructured grid, for delta and zero of a regular grid (focal and pupil); and a focal/pupil grid
+    shared with a second propagator that is used first."""
+    if rng.random() < 0.3:
+        fo = case['focal']
+        k = fo['kind']
+        if k == 'separated':
+            fo['y'] = list(fo['x']); fo['alias'] = True
+        elif k == 'unstructured':
+            fo['y'] = list(fo['x']); fo['alias'] = True
+        elif k == 'polar':
+            fo['theta'] = list(fo['r']); fo['alias'] = True
+        elif k == 'regular':
+            fo['delta'] = [fo['delta'][0]] * 2; fo['zero'] = list(fo['delta']); fo['alias'] = True
+        if rng.random() < 0.5:
+            p = case['pupil']
+            p['delta'] = [p['delta'][0]] * 2; p['zero'] = list(p['delta']); p['alias'] = True
+    if rng.random() < 0.25:
+        case['shared'] = True
+    return case
 
 
 def directed():
@@ -127,6 +151,17 @@ def directed():
         cases.append({'pupil': pupil, 'lams': [1.0], 'f': {'kind': 'const', 'a': 0.5},
                       'focal': {'kind': 'unstructured', 'x': [0.0, 0.25, -0.5, 1.0], 'y': [0.0, -0.75, 0.5, 1.0]}, 'wf': 'scalar-stokes',
                       'stokes': [1.0, 0.0, 0.5, 0.0], 'fseed': 9})
+    sq8 = {'delta': [0.125, 0.125], 'dims': [8, 8], 'zero': [-0.4375, -0.4375]}
+    ax = [-0.75, -0.25, 0.0, 0.5, 1.0]
+    for fo in ({'kind': 'separated', 'x': ax, 'y': list(ax), 'alias': True}, {'kind': 'unstructured', 'x': ax, 'y': list(ax), 'alias': True},
+               {'kind': 'polar', 'r': [0.25, 0.5, 1.0], 'theta': [0.25, 0.5, 1.0], 'alias': True},
+               {'kind': 'regular', 'delta': [0.25, 0.25], 'dims': [5, 4], 'zero': [0.25, 0.25], 'alias': True}):
+        for shared in (False, True):
+            cases.append({'pupil': dict(sq8), 'lams': [0.5], 'f': {'kind': 'const', 'a': 2.0}, 'focal': dict(fo), 'wf': 'scalar',
+                          'stokes': None, 'fseed': 10, 'shared': shared})
+    cases.append({'pupil': {'delta': [0.125, 0.125], 'dims': [6, 5], 'zero': [0.125, 0.125], 'alias': True}, 'lams': [0.5, 1.0],
+                  'f': {'kind': 'const', 'a': 2.0}, 'focal': {'kind': 'ffpg', 'q': 2.0, 'num_airy': None, 'f': 2.0, 'lam': 0.5},
+                  'wf': 'jones', 'stokes': None, 'fseed': 12, 'shared': True})
     return cases
 
 
@@ -137,10 +172,20 @@ def f_value(f, lam):
     return f['a'] + f['b'] * lam if f['kind'] == 'callable' else f['a']
 
 
+USER_ARRAYS = []     # (array object handed to hcipy, pristine copy): must be unchanged afterwards
+
+
+def _user(a):
+    USER_ARRAYS.append((a, a.copy()))
+    return a
+
+
 def build_pupil(case):
     import hcipy
     p = case['pupil']
-    return hcipy.CartesianGrid(hcipy.RegularCoords(np.array(p['delta'], dtype=float), np.array(p['dims']), np.array(p['zero'], dtype=float)))
+    d = _user(np.array(p['delta'], dtype=float))
+    z = d if (p.get('alias') and list(p['zero']) == list(p['delta'])) else _user(np.array(p['zero'], dtype=float))
+    return hcipy.CartesianGrid(hcipy.RegularCoords(d, np.array(p['dims']), z))
 
 
 def build_focal(case, pupil_grid):
@@ -168,15 +213,20 @@ def build_focal(case, pupil_grid):
             delta.append(d); dims.append(n); zero.append(z)
         g = hcipy.CartesianGrid(hcipy.RegularCoords(np.array([float(d) for d in delta]), np.array(dims), np.array([float(z) for z in zero])))
         return g, (delta, dims, zero)
+    def pair(a, b):
+        u = _user(np.array(a, dtype=float))
+        v = u if (fo.get('alias') and list(a) == list(b)) else _user(np.array(b, dtype=float))
+        return u, v
     if k == 'regular':
-        g = hcipy.CartesianGrid(hcipy.RegularCoords(np.array(fo['delta'], dtype=float), np.array(fo['dims']), np.array(fo['zero'], dtype=float)))
+        d, z = pair(fo['delta'], fo['zero'])
+        g = hcipy.CartesianGrid(hcipy.RegularCoords(d, np.array(fo['dims']), z))
         return g, ([Fraction(d) for d in fo['delta']], list(fo['dims']), [Fraction(z) for z in fo['zero']])
     if k == 'separated':
-        return hcipy.CartesianGrid(hcipy.SeparatedCoords((np.array(fo['x'], dtype=float), np.array(fo['y'], dtype=float)))), None
+        return hcipy.CartesianGrid(hcipy.SeparatedCoords(pair(fo['x'], fo['y']))), None
     if k == 'unstructured':
-        return hcipy.CartesianGrid(hcipy.UnstructuredCoords((np.array(fo['x'], dtype=float), np.array(fo['y'], dtype=float))), weights=np.ones(len(fo['x']))), None
+        return hcipy.CartesianGrid(hcipy.UnstructuredCoords(pair(fo['x'], fo['y'])), weights=np.ones(len(fo['x']))), None
     if k == 'polar':
-        return hcipy.PolarGrid(hcipy.SeparatedCoords((np.array(fo['r'], dtype=float), np.array(fo['theta'], dtype=float)))), None
+        return hcipy.PolarGrid(hcipy.SeparatedCoords(pair(fo['r'], fo['theta']))), None
     raise MachineryError('unknown focal kind %r' % k)
 
 
@@ -285,6 +335,23 @@ def oracle_case(case, observe=None):
         fl = lambda wl: a + b * wl      # noqa: E731
     else:
         fl = case['f']['a']
+    snap = grid_snapshot(pupil_grid, focal_grid)
+    if case.get('shared'):
+        # the same two grid objects serve another propagator (other focal length) that is used first
+        other = hcipy.FraunhoferPropagator(pupil_grid, focal_grid, focal_length=3.0)
+        lam0 = case['lams'][0]
+        e0 = make_field(case, pupil_grid)
+        w0 = make_wavefront(case, e0.copy(), lam0)
+        try:
+            o0 = other.forward(w0)
+            if not d4_affected(pupil_grid, focal_grid, lam0, 3.0):
+                ref0 = direct_sum(pupil_grid, focal_grid, np.asarray(w0.electric_field), lam0, 3.0)
+                err0 = float(np.abs(np.asarray(o0.electric_field).reshape(-1, focal_grid.size) - ref0).max())
+                if not err0 <= TOL * max(1.0, float(np.abs(ref0).max())):
+                    bad.append(('integral shared-grids ' + case['focal']['kind'], 'a second propagator on the same grid objects differs from the Fourier sum by %.3g' % err0))
+        except Exception as e:
+            if not d4_affected(pupil_grid, focal_grid, lam0, 3.0):
+                bad.append(('raises %s shared-grids' % type(e).__name__, 'second propagator on shared grids raised %s: %s' % (type(e).__name__, e)))
     prop = hcipy.FraunhoferPropagator(pupil_grid, focal_grid, focal_length=fl)     # fresh per pupil grid (D3 is C05's)
     field = make_field(case, pupil_grid)
     kind = case['focal']['kind'] + '/' + case['wf']
@@ -350,8 +417,29 @@ def oracle_case(case, observe=None):
             rec['uv_grid'] = inst.uv_grid
             rec['ft'] = type(inst.fourier_transform).__name__
         obs['per_lam'].append(rec)
+    bad += inputs_unchanged(snap, pupil_grid, focal_grid)
     if observe is not None:
         observe.update(obs)
+    return bad
+
+
+def grid_snapshot(pupil_grid, focal_grid):
+    del USER_ARRAYS[:-8]          # only the arrays of the grids just built matter
+    return [np.array(g.points, dtype=float).copy() for g in (pupil_grid, focal_grid)] + \
+           [np.array(g.weights, dtype=float).copy() * np.ones(g.size) for g in (pupil_grid, focal_grid)]
+
+
+def inputs_unchanged(snap, pupil_grid, focal_grid):
+    bad = []
+    now = grid_snapshot(pupil_grid, focal_grid)
+    names = ['pupil grid points', 'focal grid points', 'pupil grid weights', 'focal grid weights']
+    for a, b, nm in zip(snap, now, names):
+        if a.shape != b.shape or not np.array_equal(a, b):
+            bad.append(('input-grid-modified', 'the %s the user supplied were changed by propagating' % nm))
+    for arr, pristine in USER_ARRAYS:
+        if not np.array_equal(arr, pristine):
+            bad.append(('input-array-modified', 'an ndarray the user built a grid from was changed by propagating'))
+            break
     return bad
 
 
@@ -615,6 +703,7 @@ def oracle_session(sess, observe=None):
             return lambda wl: a + b * wl
         return spec['a']
     cur = case['f']
+    snap = grid_snapshot(pupil_grid, focal_grid)
     prop = hcipy.FraunhoferPropagator(pupil_grid, focal_grid, focal_length=as_arg(cur))
     prev = 'fresh'
     log = []
@@ -668,6 +757,7 @@ def oracle_session(sess, observe=None):
             norm = complex(prop.get_instance_data(pupil_grid, None, lam).norm_factor)
         log.append((op['op'], lam, f, norm, d4))
         prev = prev + '>' + op['op'] + ('(c64)' if op['dtype'] == 'c64' else '')
+    bad += inputs_unchanged(snap, pupil_grid, focal_grid)
     if observe is not None:
         observe.update({'log': log, 'pupil_grid': pupil_grid, 'focal_grid': focal_grid})
     return bad
@@ -730,6 +820,12 @@ def run(ctx):
                 ctx.count('skipped:empty-focal-grid')
                 continue
             ctx.count('focal:' + case['focal']['kind'])
+            if case['focal'].get('alias'):
+                ctx.count('aliased-focal-arrays:' + case['focal']['kind'])
+            if case['pupil'].get('alias'):
+                ctx.count('aliased-pupil-delta-zero')
+            if case.get('shared'):
+                ctx.count('grids-shared-with-second-propagator')
             ctx.count('wf:' + case['wf'])
             ctx.count('f:' + case['f']['kind'])
             for rec in obs['per_lam']:
